@@ -1240,12 +1240,13 @@ class Valuation:
     order: {(a, b): '<'|'='|'>'} over fmt()-rendered operands;   facts: {rendered test: bool}.
     """
 
-    def __init__(self, order=None, facts=None, isnone=None, member=None, nums=None):
+    def __init__(self, order=None, facts=None, isnone=None, member=None, nums=None, strs=None):
         self.order = dict(order or {})
         self.facts = dict(facts or {})
         self.isnone = dict(isnone or {})
         self.member = dict(member or {})
         self.nums = dict(nums or {})
+        self.strs = dict(strs or {})
         self.unknown = []
 
     def value(self, t):
@@ -1299,6 +1300,12 @@ class Valuation:
         s = fmt(t)
         if s in self.facts:
             return self.facts[s]
+        if t[0] == 'cmp' and t[1] == '==' and self.strs:
+            for x, y in ((t[2], t[3]), (t[3], t[2])):
+                if y[0] == 'str' and fmt(x) in self.strs:
+                    return self.strs[fmt(x)] == y[1]
+        if t[0] == 'cmp' and t[1] == 'in' and self.strs and fmt(t[2]) in self.strs and t[3][0] in ('tuple', 'list', 'set') and all(z[0] == 'str' for z in t[3][1]):
+            return self.strs[fmt(t[2])] in [z[1] for z in t[3][1]]
         if t[0] == 'cmp' and self.nums and t[1] in ('<', '<=', '=='):
             x, y = self.value(t[2]), self.value(t[3])
             if x is not None and y is not None:
